@@ -275,11 +275,18 @@ func runOne(r *Report, base *Ctx, prefix []int, run func(*Ctx)) (c *Ctx, ok bool
 		run(c)
 	}()
 	if ok && len(c.Choices) < len(prefix) {
-		r.Errorf("unit %s: divergence while replaying prefix: execution consumed %d choices, prefix has %d",
-			base.UnitName, len(c.Choices), len(prefix))
+		r.Errorf("unit %s: divergence while replaying prefix: execution consumed %d choices, prefix has %d (prefix %v, labels consumed %v, last log lines %v)",
+			base.UnitName, len(c.Choices), len(prefix), prefix, c.Labels, tail(c.log, 4))
 		ok = false
 	}
 	return c, ok
+}
+
+func tail(l []string, n int) []string {
+	if len(l) > n {
+		return l[len(l)-n:]
+	}
+	return l
 }
 
 // Explore runs the deviation-bounded DFS over the choice tree of run. bound<0: unbounded.
